@@ -16,6 +16,7 @@ from vmon.core import outcome
 from vmon.util import N, P, boundary_secrets, rand_secret
 
 PROPERTY_ID = "C02"
+REPO_TEST_MODULES = ["test_schnorr", "test_ecc", "test_hash"]  # thorough tier: run as an extra workload under the contracts
 RULE = (
     "cases = (secret, msg, aux) triples signed by PrivateKey.sign_schnorr and (xonly key, msg, 64-byte string) "
     "triples pushed through SchnorrSignature.parse + S256Point.verify_schnorr; each decided by comparison with the "
